@@ -453,7 +453,7 @@ def runTrace (fuel : Nat) : St → List Tok → Nat → Nat → Bool → TraceRe
   | s, [], _, n, bad => .ok s n bad
   | s, t :: ts, i, n, bad =>
     let name := t.role ++ ":" ++ t.site
-    if t.site.startsWith "obs.end." || t.site.startsWith "obs.cfg" || t.site.startsWith "obs.nosender." || t.site.startsWith "obs.again" then
+    if t.site.startsWith "obs.end." || t.site.startsWith "obs.multi." || t.site.startsWith "obs.cfg" || t.site.startsWith "obs.nosender." || t.site.startsWith "obs.again" then
       runTrace fuel s ts (i + 1) n bad      -- judged on the implementation alone (`chkRunEnd`)
     else if t.site.startsWith "obs.udpbad." then
       -- the Stop has returned and the run is over in the model too (a dropped datagram is no event of the life cycle)
@@ -684,6 +684,10 @@ def chkRunEnd : List Tok → Option String
       else chkRunEnd ts
     | ["obs", "cfgBusy", r] => if r != "1" then some "C10:configure-accepts-busy-port Configure on a port that is already bound was accepted" else chkRunEnd ts
     | ["obs", "cfgLen", r] => if r != "1" then some "C10:configure-accepts-mismatched-lists Configure with Rates and HostPort of different lengths was accepted" else chkRunEnd ts
+    | ["obs", "multi", nch, flowing] =>
+      if nch != "5" then some s!"C10:roach-multi-device-run a ROACH source of 2 + 3 channels reports {nch} channels"
+      else if flowing != "1" then some "C10:roach-multi-device-run a started ROACH source of two devices delivers no blocks"
+      else chkRunEnd ts
     | ["obs", "again", "failed"] => some "C10:restart-failed the source could not be configured and run again on the same object"
     | _ => chkRunEnd ts
 
@@ -892,7 +896,9 @@ def runLine (ts : List String) : Verdict :=
   | .ok ln =>
     match ln.out with
     | .panic cls =>
-      if ln.sched == "roachSrc" then
+      if ln.sched == "roachSrc" && (cls.splitOn "dataBlock_contains").length > 1 then
+        .viol "C10:roach-multi-device-panic a ROACH source of two devices (2 + 3 channels) starts with 5 channels and the first data block (one device's segments) panics ProcessSegments: the server dies"
+      else if ln.sched == "roachSrc" then
         .viol s!"C10:start-without-data-not-clean the ROACH source crashed the server ({cls})"
       else if ln.sched == "udpBad" then
         .viol s!"C10:udp-bad-datagram-wedges-source after one undecodable UDP datagram the source wedged and the server crashed ({cls})"
